@@ -156,6 +156,12 @@ def figure_fingerprint(x):
                 c["facecolors"] = _arr(col.get_facecolors())
             except Exception:
                 pass
+            try:  # colours that are only encoded in the collection's colormap (e.g. seaborn's row_colors mesh)
+                arr = col.get_array()
+                if arr is not None and np.size(arr) <= 4096:
+                    c["rgba"] = _arr(col.to_rgba(np.asarray(arr)))
+            except Exception:
+                pass
             try:
                 if hasattr(col, "get_segments"):
                     c["segments"] = [_arr(s) for s in col.get_segments()][:200]
@@ -163,7 +169,13 @@ def figure_fingerprint(x):
                 pass
             a["collections"].append(c)
         for im in ax.images:
-            a["images"].append({"array": _arr(im.get_array()), "extent": _arr(im.get_extent())})
+            d = {"array": _arr(im.get_array()), "extent": _arr(im.get_extent())}
+            try:
+                if np.size(im.get_array()) <= 4096:
+                    d["rgba"] = _arr(im.to_rgba(np.asarray(im.get_array())))
+            except Exception:
+                pass
+            a["images"].append(d)
         for t in ax.texts:
             a["texts"].append({"text": t.get_text(), "xy": _arr(t.get_position()), "weight": str(t.get_fontweight()),
                                "color": canon(t.get_color())})
@@ -247,8 +259,8 @@ def snap(x, depth=0):
                 repr(sorted(x.attrs.items(), key=repr))]
     if isinstance(x, np.ndarray):
         if x.dtype == object:
-            return ["nd", "object", list(x.shape), [_cell(v) for v in x.ravel().tolist()]]
-        return ["nd", str(x.dtype), list(x.shape), x.tobytes().hex()]
+            return ["nd", "object", list(x.shape), [_cell(v) for v in x.ravel().tolist()], bool(x.flags.writeable)]
+        return ["nd", str(x.dtype), list(x.shape), x.tobytes().hex(), bool(x.flags.writeable)]
     if isinstance(x, dict):
         return ["dict", [[repr(k), snap(v, depth + 1)] for k, v in x.items()]]  # order is part of a dict's state
     if isinstance(x, list):
